@@ -330,8 +330,9 @@ class Flows:
                                  "dialog": in_dialog})
         return e
 
-    def backend_response(self, pend=None, code=None, from_backend=None, add_to_tag=True):
-        """a response to a request that went to a backend, sent from a backend address"""
+    def backend_response(self, pend=None, code=None, from_backend=None, add_to_tag=True, own_expires=None):
+        """a response to a request that went to a backend, sent from a backend address
+        (own_expires: None = sometimes a random one, False = none, bytes = that value)"""
         r, s = self.rng, self.s
         if not self.pending or not self.backends:
             return None
@@ -353,8 +354,11 @@ class Flows:
                     v = v + b";tag=" + p["totag"]
                 hs.append((n, v))
         # the answer's own Expires (read by the proxy when it binds the dialog, and none of its business otherwise)
-        if not any(n.lower() == b"expires" for n, _ in hs) and r.random() < 0.2:
-            hs.append((b"Expires", r.choice(EXPIRES)))
+        if own_expires is None:
+            if not any(n.lower() == b"expires" for n, _ in hs) and r.random() < 0.2:
+                hs.append((b"Expires", r.choice(EXPIRES)))
+        elif own_expires is not False:
+            hs.append((b"Expires", own_expires))
         b = from_backend or r.choice(self.backends)
         ip, port = b.split(b":")
         data = msg(b"SIP/2.0 %d %s" % (code, r.choice([b"OK", b"Ringing", b"Not Found Here", b"x"])), hs,
@@ -656,6 +660,61 @@ def dialog_history(rng, block, n_dialogs=None, n_backends=None, opts=None):
             dialogs.remove(d)
             if not dialogs:
                 break
+    return f
+
+
+def timed_history(rng, block):
+    """C15 on the real binary, in real time: dialogTimeout 2 s.  Dialogs are pinned by their backend's answer (without
+    Expires, or with Expires 1 / 3: lifetime max(2, Expires) seconds); each is probed well inside its lifetime (must reach
+    its backend), real time passes beyond the lifetime, and it is probed again (must be load-balanced like a new request);
+    unrelated requests advance the rotation in between."""
+    r = rng
+    o = {"backends": r.randrange(2, 5), "names": b"svc.example.com", "tcp": False, "two_listeners": False, "routes": 0,
+         "tcphops": False, "dialog_timeout": 2, "keep": False}
+    f = Flows(r, block, o)
+    s = f.s
+    ds = []
+    for d in range(r.randrange(1, 4)):
+        ua = r.choice(f.uas)
+        ta, tb = tok(r, 1, 5, b"-"), tok(r, 1, 5, b"-")
+        frm, to = f.ft(b"sip:alice%d@a.example" % d, ta, False), f.ft(b"sip:bob@svc.example.com", None, False)
+        callid = b"tm-%d-%s" % (d, tok(r, 1, 4))
+        data, hs = f.request(b"INVITE", b"sip:bob@svc.example.com", ua, frm, to, callid, extra=[])
+        e = s.ev_udp(f.li, ua, data)
+        exp = r.choice([False, False, b"1", b"3"])
+        f.backend_response({"e": e, "hs": hs, "ua": ua, "method": b"INVITE", "callid": callid, "frm": frm, "to": to, "totag": tb},
+                           code=200, from_backend=r.choice(f.backends), own_expires=exp)
+        ds.append({"frm": frm, "to": to + b";tag=" + tb, "callid": callid, "life": 3 if exp == b"3" else 2})
+
+    def unrelated():
+        for _ in range(r.randrange(0, 3)):
+            a, b = f.uri_pair()
+            data, _ = f.request(r.choice([b"OPTIONS", b"MESSAGE"]), b"sip:bob@svc.example.com", r.choice(f.uas),
+                                f.ft(a, b"u%d" % f.nid(), False), f.ft(b, None, False), b"un-%d" % f.nid(), extra=[])
+            s.ev_udp(f.li, r.choice(f.uas), data)
+
+    def probe(d):
+        frm, to = (d["frm"], d["to"]) if r.random() < 0.5 else (d["to"], d["frm"])
+        data, _ = f.request(r.choice([b"INFO", b"UPDATE", b"OPTIONS", b"MESSAGE", b"ACK"]), b"sip:bob@svc.example.com", r.choice(f.uas),
+                            frm, to, d["callid"], extra=[])
+        s.ev_udp(f.li, r.choice(f.uas), data)
+
+    unrelated()
+    s.ev_wait(r.choice([300, 500, 700]))                 # <= 35 % of the shortest lifetime
+    for d in ds:
+        probe(d)
+        unrelated()
+    s.ev_wait(2600 - s.waits[-1][1])                      # 2.6 s after the start: the 2-second pins are over
+    for d in ds:
+        if d["life"] == 2:
+            probe(d)
+            unrelated()
+    if any(d["life"] == 3 for d in ds):
+        s.ev_wait(1000)                                   # 3.6 s
+        for d in ds:
+            if d["life"] == 3:
+                probe(d)
+                unrelated()
     return f
 
 
